@@ -201,6 +201,40 @@ def build(tier):
                     except Exception as e:
                         ok, detail = None, dict(raised=repr(e)[:300])
                     rep.add(core.decided(cid, PROP, ok, functions=fns, text="%s of a %s symbol and an unsized %s constant (%s): static type == run-time dtype" % (kind, t, label, order), detail=detail, claimed=ok is not None, meta=dict(kind="unsized-constant", types=[kind, t, label, order], detail=detail)))
+    # "any mix of constants": integer constants through float-valued operations, a boolean inside a list result, complex built
+    # from components of different widths
+    def one(cid, build_fn, arg_types, text, kindname):
+        ctx = fa.Context(paths=[])
+        syms = [ctx.symbol("x%d" % i, t).reference(ref_name="x%d" % i) for i, t in enumerate(arg_types)]
+        try:
+            with warnings.catch_warnings(), numpy.errstate(all="ignore"):
+                warnings.simplefilter("ignore")
+                node = build_fn(ctx, *syms)
+                graph = ctx.apply(ctx.symbol("f").reference(ref_name="f"), syms, node)
+                st = node.get_type()
+                fn = targets.numpy.as_function(graph, debug=1)
+                r = fn(*[WITNESS[t] for t in arg_types])
+            if str(st).startswith("list"):
+                ok, detail = True, dict(static=str(st), runtime="list of %d" % len(r))
+            else:
+                want = numpy.dtype(eval(targets.numpy.type_to_target[str(st)], dict(numpy=numpy)))
+                ok = want == numpy.asarray(r).dtype
+                detail = dict(static=str(st), runtime=str(numpy.asarray(r).dtype))
+        except AssertionError as e:
+            ok, detail = False, dict(assertion_fired=repr(e)[:200])
+        except Exception as e:
+            ok, detail = False, dict(raised=repr(e)[:300])
+        rep.add(core.decided(cid, PROP, ok, functions=fns, text=text, detail=detail, meta=dict(kind=kindname, types=list(arg_types), detail=detail)))
+
+    from functional_algorithms.expr import Expr as _E
+
+    for kind in ("sqrt", "exp", "log1p"):
+        # the sub-expression is bound to a name, so the debug-level-1 assertion applies to IT (every sub-expression has its type)
+        one("C08/mixed-constants/integer-constant/%s" % kind, lambda ctx, x, kind=kind: _E(ctx, kind, (ctx.constant(2),)).reference(ref_name="sub", force=True) + x * ctx.constant(0, x), ("float64",), "%s of an integer constant: static type == run-time dtype" % kind, "integer-constant")
+    one("C08/mixed-constants/integer-constant/divide", lambda ctx, x: (ctx.constant(1) / ctx.constant(2)).reference(ref_name="sub", force=True) + x * ctx.constant(0, x), ("float64",), "1 / 2 of integer constants: static type == run-time dtype", "integer-constant")
+    one("C08/mixed-constants/list-with-boolean-item", lambda ctx, x: ctx.list([x + x, x < x]), ("float32",), "a list result with a boolean item: the debug-level-1 code can be generated and runs", "list-with-boolean")
+    for ta, tb in (("float64", "float32"), ("float32", "float64"), ("float16", "float32"), ("float32", "float32")):
+        one("C08/mixed-constants/complex-of-mixed-widths/%s,%s" % (ta, tb), lambda ctx, a, b: ctx.complex(a, b), (ta, tb), "complex(%s, %s): static type == run-time dtype" % (ta, tb), "complex-of-mixed-widths")
     # base case: argument casting at function entry (force_cast_arguments) gives every symbol its declared dtype
     for t in NUM:
         ctx = fa.Context(paths=[])
